@@ -250,6 +250,97 @@ theorem frame_ParseKey (env : Env) (raw : Slice) (contentType : String) :
     ReadOnly (parseKey env raw contentType) :=
   readOnly_of_frames (frames_of_sat fun _ => sat_parseKey env raw contentType)
 
+/-! ## the non-exported helpers the exported functions hand the caller's slices on to (found by
+`factgen_c17` through the same-package call graph): each is read-only as well -/
+
+theorem frame_helper_arrConcat (arrays : List Slice) : ReadOnly (arrConcat arrays) :=
+  readOnly_of_frames (frames_of_sat fun _ => sat_true (sat_arrConcat arrays))
+
+theorem frame_helper_arrXor (arrL arrR : Slice) : ReadOnly (arrXor arrL arrR) :=
+  readOnly_of_frames (frames_of_sat fun _ => sat_true (sat_arrXor arrL arrR))
+
+theorem frame_helper_hmacTag (env : Env) (a : CbcAead) (additionalData : Slice) :
+    ReadOnly (hmacTag env a additionalData) :=
+  readOnly_of_frames (frames_of_sat fun _ => sat_true (sat_hmacTag env a additionalData))
+
+/-- `encryptSymmetricAEAD(aead, plaintext, nonce, associatedData)` for EVERY `cipher.AEAD` the
+package builds (standard library or AES-CBC-HMAC) -/
+theorem frame_helper_encryptSymmetricAEAD (env : Env) (ae : Aead) (plaintext nonce ad : Slice) :
+    ReadOnly (encryptSymmetricAEAD .fixed env ae plaintext nonce ad) :=
+  readOnly_of_frames (frames_of_sat fun _ => sat_encryptSymmetricAEAD env ae plaintext nonce ad)
+
+/-- `decryptSymmetricAEAD(aead, ciphertext, nonce, tag, associatedData)`: read-only whatever the
+slices alias — in particular when `tag` sits right behind `ciphertext` in the same array -/
+theorem frame_helper_decryptSymmetricAEAD (env : Env) (ae : Aead) (ciphertext nonce tag ad : Slice) :
+    ReadOnly (decryptSymmetricAEAD .fixed env ae ciphertext nonce tag ad) :=
+  readOnly_of_frames (frames_of_sat fun _ => sat_decryptSymmetricAEAD env ae ciphertext nonce tag ad)
+
+/-- non-vacuity for the adjacent layout: `nonce‖ciphertext‖tag` in ONE array (12 + 5 + 16 bytes);
+the model's A128GCM decryption succeeds and (by the theorem) leaves that array alone -/
+example : (decryptSymmetric .fixed exEnv ⟨0, 12, 5, 28⟩ "A128GCM" ⟨.oct, ⟨1, 0, 16, 16⟩⟩ ⟨0, 0, 12, 40⟩
+    ⟨0, 17, 16, 23⟩ Slice.nil exHeap).1.isOk = true ∧
+    (decryptSymmetric .fixed exEnv ⟨0, 12, 5, 28⟩ "A128GCM" ⟨.oct, ⟨1, 0, 16, 16⟩⟩ ⟨0, 0, 12, 40⟩
+    ⟨0, 17, 16, 23⟩ Slice.nil exHeap).2[0]? = exHeap[0]? := by decide +kernel
+
+theorem frame_helper_getAESCBCHMACCipher (alg : String) (key : Slice) :
+    ReadOnly (getAESCBCHMACCipher alg key) :=
+  readOnly_of_frames (frames_of_sat fun _ => sat_getAESCBCHMACCipher alg key)
+
+theorem frame_helper_getChaCha20Poly1305Cipher (alg : String) (key nonce : Slice) :
+    ReadOnly (getChaCha20Poly1305Cipher alg key nonce) :=
+  readOnly_of_frames (frames_of_sat fun _ => sat_getChaCha20Poly1305Cipher alg key nonce)
+
+theorem frame_helper_encryptPublicKeyRSAPKCS1v15 (env : Env) (k : Nat) (plaintext : Slice) (key : Key) :
+    ReadOnly (encryptPublicKeyRSAPKCS1v15 env k plaintext key) :=
+  readOnly_of_frames (frames_of_sat fun _ => sat_encryptPublicKeyRSAPKCS1v15 env k plaintext key)
+
+theorem frame_helper_encryptPublicKeyRSAOAEP (env : Env) (k : Nat) (plaintext : Slice) (key : Key)
+    (label : Slice) : ReadOnly (encryptPublicKeyRSAOAEP env k plaintext key label) :=
+  readOnly_of_frames (frames_of_sat fun _ => sat_encryptPublicKeyRSAOAEP env k plaintext key label)
+
+theorem frame_helper_decryptPrivateKeyRSAPKCS1v15 (env : Env) (k : Nat) (ciphertext : Slice) (key : Key) :
+    ReadOnly (decryptPrivateKeyRSAPKCS1v15 env k ciphertext key) :=
+  readOnly_of_frames (frames_of_sat fun _ => sat_decryptPrivateKeyRSAPKCS1v15 env k ciphertext key)
+
+theorem frame_helper_decryptPrivateKeyRSAOAEP (env : Env) (k : Nat) (ciphertext : Slice) (key : Key)
+    (label : Slice) : ReadOnly (decryptPrivateKeyRSAOAEP env k ciphertext key label) :=
+  readOnly_of_frames (frames_of_sat fun _ => sat_decryptPrivateKeyRSAOAEP env k ciphertext key label)
+
+theorem frame_helper_signPrivateKeyRSAPKCS1v15 (env : Env) (k : Nat) (digest : Slice) (key : Key) :
+    ReadOnly (signPrivateKeyRSAPKCS1v15 env k digest key) :=
+  readOnly_of_frames (frames_of_sat fun _ => sat_signPrivateKeyRSAPKCS1v15 env k digest key)
+
+theorem frame_helper_signPrivateKeyRSAPSS (env : Env) (k : Nat) (digest : Slice) (key : Key) :
+    ReadOnly (signPrivateKeyRSAPSS env k digest key) :=
+  readOnly_of_frames (frames_of_sat fun _ => sat_signPrivateKeyRSAPSS env k digest key)
+
+theorem frame_helper_signPrivateKeyECDSA (env : Env) (k : Nat) (digest : Slice) (key : Key) :
+    ReadOnly (signPrivateKeyECDSA env k digest key) :=
+  readOnly_of_frames (frames_of_sat fun _ => sat_signPrivateKeyECDSA env k digest key)
+
+theorem frame_helper_signPrivateKeyEdDSA (env : Env) (k : Nat) (message : Slice) (key : Key) :
+    ReadOnly (signPrivateKeyEdDSA env k message key) :=
+  readOnly_of_frames (frames_of_sat fun _ => sat_signPrivateKeyEdDSA env k message key)
+
+theorem frame_helper_verifyPublicKeyRSAPKCS1v15 (env : Env) (digest signature : Slice) (key : Key) :
+    ReadOnly (verifyPublicKeyRSAPKCS1v15 env digest signature key) :=
+  readOnly_of_frames (frames_of_sat fun _ => sat_verifyPublicKeyRSAPKCS1v15 env digest signature key)
+
+theorem frame_helper_verifyPublicKeyRSAPSS (env : Env) (digest signature : Slice) (key : Key) :
+    ReadOnly (verifyPublicKeyRSAPSS env digest signature key) :=
+  readOnly_of_frames (frames_of_sat fun _ => sat_verifyPublicKeyRSAPSS env digest signature key)
+
+theorem frame_helper_verifyPublicKeyECDSA (env : Env) (digest signature : Slice) (key : Key) :
+    ReadOnly (verifyPublicKeyECDSA env digest signature key) :=
+  readOnly_of_frames (frames_of_sat fun _ => sat_verifyPublicKeyECDSA env digest signature key)
+
+theorem frame_helper_verifyPublicKeyEdDSA (env : Env) (mesage signature : Slice) (key : Key) :
+    ReadOnly (verifyPublicKeyEdDSA env mesage signature key) :=
+  readOnly_of_frames (frames_of_sat fun _ => sat_verifyPublicKeyEdDSA env mesage signature key)
+
+theorem frame_helper_parseSymmetricKey (env : Env) (raw : Slice) : ReadOnly (parseSymmetricKey env raw) :=
+  readOnly_of_frames (frames_of_sat fun _ => sat_parseSymmetricKey env raw)
+
 /-! ## the entry point the driver runs: whatever call `kitdrv C17` is asked about, the cells it
 answers in `may=` (`mayWrite`) bound what the model's run changes -/
 
@@ -337,6 +428,50 @@ theorem generated_functions_covered : Kit.Generated.C17.fns.all isCovered = true
 /-- and nothing in `covered` is stale -/
 theorem covered_functions_exist :
     (covered.all fun e => Kit.Generated.C17.fns.any fun f =>
+      e.pkg == f.pkg && e.recv == f.recv && e.name == f.name && e.params == f.params) = true := by decide
+
+/-- the helpers: a new non-exported `[]byte`-taking function reachable from an exported one (for
+instance a `joinCiphertextAndTag(ciphertext, tag)`) is a new obligation: it needs a model
+function, a frame theorem and an entry here -/
+def coveredHelpers : List Covered := [
+  ⟨"aescbcaead", "aesCBCAEAD", "hmacTag", ["additionalData", "nonce", "ciphertext"], _, frame_helper_hmacTag⟩,
+  ⟨"aeskw", "", "arrConcat", ["arrays..."], _, frame_helper_arrConcat⟩,
+  ⟨"aeskw", "", "arrXor", ["arrL", "arrR"], _, frame_helper_arrXor⟩,
+  ⟨"crypto", "", "decryptPrivateKeyRSAOAEP", ["ciphertext", "label"], _, frame_helper_decryptPrivateKeyRSAOAEP⟩,
+  ⟨"crypto", "", "decryptPrivateKeyRSAPKCS1v15", ["ciphertext"], _, frame_helper_decryptPrivateKeyRSAPKCS1v15⟩,
+  ⟨"crypto", "", "decryptSymmetricAEAD", ["ciphertext", "nonce", "tag", "associatedData"], _, frame_helper_decryptSymmetricAEAD⟩,
+  ⟨"crypto", "", "decryptSymmetricAESCBC", ["ciphertext", "key", "iv"], _, frame_decrypt_AESCBC⟩,
+  ⟨"crypto", "", "decryptSymmetricAESCBCHMAC", ["ciphertext", "key", "nonce", "tag", "associatedData"], _, frame_decrypt_AESCBCHMAC⟩,
+  ⟨"crypto", "", "decryptSymmetricAESGCM", ["ciphertext", "key", "nonce", "tag", "associatedData"], _, frame_decrypt_AESGCM⟩,
+  ⟨"crypto", "", "decryptSymmetricAESKW", ["ciphertext", "key"], _, frame_decrypt_AESKW⟩,
+  ⟨"crypto", "", "decryptSymmetricChaCha20Poly1305", ["ciphertext", "key", "nonce", "tag", "associatedData"], _, frame_decrypt_ChaCha20Poly1305⟩,
+  ⟨"crypto", "", "encryptPublicKeyRSAOAEP", ["plaintext", "label"], _, frame_helper_encryptPublicKeyRSAOAEP⟩,
+  ⟨"crypto", "", "encryptPublicKeyRSAPKCS1v15", ["plaintext"], _, frame_helper_encryptPublicKeyRSAPKCS1v15⟩,
+  ⟨"crypto", "", "encryptSymmetricAEAD", ["plaintext", "nonce", "associatedData"], _, frame_helper_encryptSymmetricAEAD⟩,
+  ⟨"crypto", "", "encryptSymmetricAESCBC", ["plaintext", "key", "iv"], _, frame_encrypt_AESCBC⟩,
+  ⟨"crypto", "", "encryptSymmetricAESCBCHMAC", ["plaintext", "key", "nonce", "associatedData"], _, frame_encrypt_AESCBCHMAC⟩,
+  ⟨"crypto", "", "encryptSymmetricAESGCM", ["plaintext", "key", "nonce", "associatedData"], _, frame_encrypt_AESGCM⟩,
+  ⟨"crypto", "", "encryptSymmetricAESKW", ["plaintext", "key"], _, frame_encrypt_AESKW⟩,
+  ⟨"crypto", "", "encryptSymmetricChaCha20Poly1305", ["plaintext", "key", "nonce", "associatedData"], _, frame_encrypt_ChaCha20Poly1305⟩,
+  ⟨"crypto", "", "getAESCBCHMACCipher", ["key"], _, frame_helper_getAESCBCHMACCipher⟩,
+  ⟨"crypto", "", "getChaCha20Poly1305Cipher", ["key", "nonce"], _, frame_helper_getChaCha20Poly1305Cipher⟩,
+  ⟨"crypto", "", "parseSymmetricKey", ["raw"], _, frame_helper_parseSymmetricKey⟩,
+  ⟨"crypto", "", "signPrivateKeyECDSA", ["digest"], _, frame_helper_signPrivateKeyECDSA⟩,
+  ⟨"crypto", "", "signPrivateKeyEdDSA", ["message"], _, frame_helper_signPrivateKeyEdDSA⟩,
+  ⟨"crypto", "", "signPrivateKeyRSAPKCS1v15", ["digest"], _, frame_helper_signPrivateKeyRSAPKCS1v15⟩,
+  ⟨"crypto", "", "signPrivateKeyRSAPSS", ["digest"], _, frame_helper_signPrivateKeyRSAPSS⟩,
+  ⟨"crypto", "", "verifyPublicKeyECDSA", ["digest", "signature"], _, frame_helper_verifyPublicKeyECDSA⟩,
+  ⟨"crypto", "", "verifyPublicKeyEdDSA", ["mesage", "signature"], _, frame_helper_verifyPublicKeyEdDSA⟩,
+  ⟨"crypto", "", "verifyPublicKeyRSAPKCS1v15", ["digest", "signature"], _, frame_helper_verifyPublicKeyRSAPKCS1v15⟩,
+  ⟨"crypto", "", "verifyPublicKeyRSAPSS", ["digest", "signature"], _, frame_helper_verifyPublicKeyRSAPSS⟩]
+
+def isCoveredHelper (f : Kit.Generated.C17.Fn) : Bool :=
+  coveredHelpers.any fun e => e.pkg == f.pkg && e.recv == f.recv && e.name == f.name && e.params == f.params
+
+theorem generated_helpers_covered : Kit.Generated.C17.helpers.all isCoveredHelper = true := by decide
+
+theorem covered_helpers_exist :
+    (coveredHelpers.all fun e => Kit.Generated.C17.helpers.any fun f =>
       e.pkg == f.pkg && e.recv == f.recv && e.name == f.name && e.params == f.params) = true := by decide
 
 /-- T1: the algorithm lists the model dispatches on are those of the `switch algorithm`
